@@ -11,6 +11,7 @@ package main
 
 import (
 	"bytes"
+	"crypto/sha256"
 	"context"
 	"encoding/json"
 	"errors"
@@ -44,6 +45,9 @@ type srcT struct {
 	// Cancel: the (scripted) source cancels the context of the Load while it is being read and then
 	// returns its map: the next source is not read any more, the Load fails with ctx.Err()
 	Cancel bool `json:",omitempty"`
+	// Pad (file sources): the file additionally holds the key "pad" with a string of that many bytes — a file of more
+	// than a MiB; the value is shipped as a digest (see leaf)
+	Pad int `json:",omitempty"`
 	// Rev (environment source): the variables are set in descending instead of ascending name order, which is the
 	// order os.Environ() lists them in: `A=1` before or after `A_B=2` decides which of the two survives
 	Rev bool `json:",omitempty"`
@@ -288,6 +292,9 @@ func leaf(v any) string {
 	case bool:
 		return "b:" + strconv.FormatBool(x)
 	case string:
+		if len(x) > 4096 { // a long string travels as its digest (same rendering on the input and the observation side)
+			return fmt.Sprintf("s#%x:%d", sha256.Sum256([]byte(x)), len(x))
+		}
 		return "s:" + x
 	}
 	b, err := json.Marshal(v)
@@ -533,6 +540,10 @@ func (r *runT) stage(l *loadT) {
 			m := s.M
 			if m == nil {
 				m = map[string]any{}
+			}
+			if s.Pad > 0 {
+				m = deepCopyMap(m)
+				m["pad"] = strings.Repeat("x", s.Pad)
 			}
 			b, _ := json.Marshal(m) // JSON is YAML
 			// same size (padded with blanks) and same modification time on every rewrite: a source
@@ -1318,6 +1329,9 @@ func genScalar(r *hx.Rand) any {
 		return []any{}
 	case 8:
 		return float64(r.Intn(100)) / 4
+	case 9:
+		// a string is a string, whatever its text looks like
+		return hx.Pick(r, []string{`{"a":1}`, `{}`, `{"host":"h9","port":1}`, `[1,2]`, `null`, `{"name":"inner"}`})
 	default:
 		return "v" + strconv.Itoa(r.Intn(50))
 	}
@@ -1692,6 +1706,14 @@ func fixedCases() []caseT {
 		{Keys: []string{"b", "a", "ÜBER.x"}, Loads: []loadT{
 			{Srcs: []srcT{{Kind: "json", M: m("a", 1, "b", 2, "Über", m("x", 1, "y", 2))}, {Kind: "map", M: m("über", m("x", 0))}}},
 			{Srcs: []srcT{{Kind: "json", M: m("a", 1)}, {Kind: "map", M: m("ÜBER", m("y", false))}}},
+		}},
+		// a file of more than a MiB: every key of it counts, also the ones behind the first MiB
+		{Keys: []string{"name", "zz", "zzz.host"}, Loads: []loadT{
+			{Srcs: []srcT{{Kind: "map", M: m("zz", "early", "zzz", m("host", "h0"))}, {Kind: "json", Pad: 1<<20 + 8192, M: m("name", "big", "zz", "late", "zzz", m("host", "h1"))}}},
+			{Srcs: []srcT{{Kind: "map", M: m("zz", "early")}, {Kind: "json", Pad: 1<<20 + 8192, M: m("name", "big2", "zz", "late2")}}},
+		}},
+		{Keys: []string{"name", "zz"}, Loads: []loadT{
+			{Srcs: []srcT{{Kind: "map", M: m("zz", "early")}, {Kind: "yaml", Pad: 1<<20 + 8192, M: m("name", "big3", "zz", "late3")}}},
 		}},
 		// an environment variable set to the empty string still overrides
 		{Keys: []string{"name", "server.host"}, Loads: []loadT{
